@@ -22,7 +22,7 @@
   of every exposed result array against every tracked array).
 -/
 import FcModel.Predicates
-namespace Fc
+namespace Fc.C19
 
 -- array identities are natural numbers (`Nat` in the comments)
 
@@ -479,4 +479,4 @@ def rerun {D S} (L : LadderOps D S) (fl : CmpFlags) : Nat → CmpState D → Lis
     let r := runComparator L fl st
     r.suite :: rerun L fl k r.state
 
-end Fc
+end Fc.C19
